@@ -1,5 +1,5 @@
 (* C08 - CTAP1/U2F APDU parsing is total and follows the U2F raw message format. *)
-From Ctap Require Import Base Schema Wire Typed Procs Inst Tables ProcTables Finite FramingP WireP C18P U2fP FrameP ObByteTables FnShapes Shapes ObShapeU2fParse.
+From Ctap Require Import Base Schema Wire Typed Procs Inst Tables ProcTables Finite FramingP WireP C18P U2fP FrameP ObByteTables FnShapes Shapes ObShapeU2fParse Deps ObDeps.
 Local Open Scope string_scope.
 Local Open Scope Z_scope.
 
@@ -78,6 +78,10 @@ Proof. vm_compute. reflexivity. Qed.
 Theorem c08_modelled_functions_unchanged_u2f_parse : shapes_hold fn_shapes shapes_u2f_parse = true.
 Proof. exact generated_shapes_u2f_parse. Qed.
 
+(* the third-party crates the model represents by hand are pinned at the versions it was written against *)
+Theorem c08_modelled_dependencies_pinned : deps_hold lock_versions cargo_deps = true.
+Proof. exact generated_deps. Qed.
+
 Eval vm_compute in "ASSUMPTIONS c08_decision_table". Print Assumptions c08_decision_table.
 Eval vm_compute in "ASSUMPTIONS c08_never_panics". Print Assumptions c08_never_panics.
 Eval vm_compute in "ASSUMPTIONS c08_class_first". Print Assumptions c08_class_first.
@@ -90,3 +94,4 @@ Eval vm_compute in "ASSUMPTIONS c08_frame_short". Print Assumptions c08_frame_sh
 Eval vm_compute in "ASSUMPTIONS c08_frame_extended". Print Assumptions c08_frame_extended.
 Eval vm_compute in "ASSUMPTIONS c08_raw_apdu_decision". Print Assumptions c08_raw_apdu_decision.
 Eval vm_compute in "ASSUMPTIONS c08_modelled_functions_unchanged_u2f_parse". Print Assumptions c08_modelled_functions_unchanged_u2f_parse.
+Eval vm_compute in "ASSUMPTIONS c08_modelled_dependencies_pinned". Print Assumptions c08_modelled_dependencies_pinned.
